@@ -523,10 +523,6 @@ impl Inventory {
             let mut inverted = HashMap::new();
 
             for (algorithm, manifest) in fixity {
-                // TODO skipping blake2b until we can support streaming them
-                if algorithm.starts_with("blake2b") {
-                    continue;
-                }
                 if let Ok(algorithm) = DigestAlgorithm::from_str(algorithm) {
                     for (digest, paths) in manifest {
                         let digest = Rc::new(HexDigest::from(digest.as_str()));
